@@ -240,6 +240,7 @@ func TestC32(t *testing.T) {
 
 	skip := map[string]bool{}
 	check := func(c c32Case, r *evid.Rec) []evid.Disc {
+		r.Sample(c)
 		switch {
 		case c.Probe != nil:
 			return checkProbe(*c.Probe, r, skip)
